@@ -694,7 +694,12 @@ class MemorizedFunc(Logger):
 
     def _func_code_key(self):
         """Identify where the source code of self.func is stored."""
-        return getattr(self.store_backend, "location", None), self.func_id
+        location = getattr(self.store_backend, "location", None)
+        if isinstance(location, (str, os.PathLike)):
+            # The same directory can be designated in several ways (relative
+            # path, symbolic link): they all share the stored source code.
+            location = os.path.realpath(location)
+        return location, self.func_id
 
     def _check_previous_func_code(self, stacklevel=2):
         """
